@@ -2,6 +2,7 @@
 // Protocol (stdin, one command per line, fields separated by single spaces; answers one line each):
 //   T                     -> "T <enum constants>"  (FormatFlags, InstOptions, RegType codes, Broadcast, AddrType, paddings)
 //   D                     -> "D <raw x86 reg_format_info tables>" (type_entries, type_strings, name_entries, name_strings; hex)
+//   DN arch               -> "DN <count> <index table words, hex> <string table bytes, hex>" raw instruction-name tables of the instdb
 //   N base width flags v  -> "N <text>"   String::append_uint/_op_number(v, base, width, flags)    (v = raw uint64)
 //   O arch fflags <op>    -> "O <text>"   Formatter::format_operand (no emitter)
 //   X arch fflags id mnem options <extra> n <op>*n   -> "X <text>"  Formatter::format_instruction (no emitter)
@@ -10,9 +11,16 @@
 //                            really emits with an Assembler + StringLogger(fflags); labels L0..L3 bound, L4..L7 unbound
 //   W fflags optype vidx vtype name|-   -> "W <text>"  Formatter::format_operand of a VIRTUAL register (x86::Compiler session)
 //   U fflags nv (vtype name|-)*nv <M op>  -> "U <text>"  format_operand of a memory operand whose base/index may be virtual ids
+//   K fflags nv (vtype name|-)*nv id mnem options <extra> n <op>*n -> "K <text>" format_instruction through the x86::Compiler (virtual ids; H = home mem)
+//   J fflags nv (vtype name|-)*nv <op> <op>   -> "J <text>" format_node of a FuncRetNode of the Compiler
+//   W6 fflags optype vidx vtype name|- et ei -> "W6 <text>" format_operand of a virtual register of an a64::Compiler
+//   Q fflags ret nargs (type vreg|-)*nargs [<expected assignment, ignored>] -> "Q <text>" format_node of the FuncNode of a fresh x86::Compiler
+//        (SysV x86-64; type 0 void 1 int32 2 uint32 3 int64 4 uint64 5 float32 6 float64; vreg = n: bind a new named register a<n>, u: unnamed)
+//   QI fflags <target op>  -> "QI <text>" format_node of an InvokeNode (call through a register / memory / immediate target)
+//   RL arch regtype mask  -> "RL <text>" Formatter::format_operand of a register-list operand (arch 5 = AArch32, 6 = AArch64)
 //   B id <description ignored>          -> "B <text>"  Formatter::format_label on the x86-64 emission session's labels
 //   Y a64 size rep hexbytes            -> "Y <text>"  Formatter::format_data (size 1 2 4 8 16 = uint8..uint64, uint8x16)
-//   Z fflags inline|- <node>           -> "Z <text>"  Formatter::format_node on a fresh x86::Builder: L | A mode n | C text |
+//   Z fflags inline|- position(0=none) <node>           -> "Z <text>"  Formatter::format_node on a fresh x86::Builder: L | A mode n | C text |
 //                                         D size count rep | S name | I id mnem options <extra> n <op>*n
 //   <op>    := N | R type id | I value | L id | M size seg addr basekind basetype baseid hasindex indextype indexid shift off bcst
 //              (x86)  basekind 0 none 1 label 2 reg
@@ -25,6 +33,8 @@
 #include <asmjit/a64.h>
 #include <asmjit/core/formatter_p.h>
 #include <asmjit/core/emitterutils_p.h>
+#include <asmjit/x86/x86instdb_p.h>
+#include <asmjit/arm/a64instdb_p.h>
 #include <asmjit/x86/x86formatter.cpp>   // file-static reg_format_info (archive member is then not pulled in)
 #include <cstdio>
 #include <cstring>
@@ -62,7 +72,7 @@ static bool read_op(std::istringstream& in, Operand_& out) {
     Label l; l.set_id(id);
     op = l;
   }
-  else if (k == "M") {
+  else if (k == "M" || k == "H") {
     uint32_t size, seg, addr, bk, bt, bid, hi, it, iid, sh, bc; int64_t off;
     in >> size >> seg >> addr >> bk >> bt >> bid >> hi >> it >> iid >> sh >> off >> bc;
     x86::Mem m;
@@ -75,6 +85,7 @@ static bool read_op(std::istringstream& in, Operand_& out) {
     m.set_addr_type(x86::Mem::AddrType(addr));
     m.set_broadcast(x86::Mem::Broadcast(bc));
     m.set_offset(off);
+    if (k == "H") m.set_reg_home();       // the memory operand is the home (spill slot) of a virtual register
     op = m;
   }
   else if (k == "V") {
@@ -166,9 +177,40 @@ struct CompilerSession {
   }
 };
 
+struct A64CompilerSession {
+  CodeHolder code;
+  a64::Compiler cc;
+  bool live = false;
+  void start() {
+    code.init(Environment(Arch::kAArch64));
+    code.attach(&cc);
+    cc.new_gp32();          // %0 w
+    cc.new_gp64("ptr");     // ptr x
+    cc.new_vec128();        // %2 q/v
+    cc.new_vec128("vacc");  // vacc
+    cc.new_vec(TypeId::kFloat64, "dbl");   // dbl d
+    live = true;
+  }
+};
+
+static bool check_vtable(CompilerSession& CS, std::istringstream& in, uint32_t nv) {
+  if (!CS.live) CS.start();
+  bool okt = nv == CS.regs.size();
+  for (uint32_t k = 0; k < nv; k++) {
+    uint32_t vt; std::string nm; in >> vt >> nm;
+    if (okt) {
+      VirtReg* vr = CS.cc.virt_reg_by_id(Operand::virt_index_to_virt_id(k));
+      std::string real = vr->name_size() ? std::string(vr->name(), vr->name_size()) : std::string("-");
+      if (uint32_t(vr->reg_type()) != vt || real != nm) okt = false;
+    }
+  }
+  return okt;
+}
+
 int main() {
   static Session S;
   static CompilerSession CS;
+  static A64CompilerSession CS6;
   std::string line;
   char buf[1 << 16];
   while (fgets(buf, sizeof(buf), stdin)) {
@@ -205,6 +247,26 @@ int main() {
       o += " ts " + hex(fi.type_strings, sizeof(fi.type_strings));
       o += " ne " + hex(fi.name_entries, sizeof(fi.name_entries));
       o += " ns " + hex(fi.name_strings, sizeof(fi.name_strings));
+      puts(o.c_str());
+    }
+    else if (cmd == "DN") {
+      uint32_t arch; in >> arch;
+      const uint32_t* idx = arch == 6 ? a64::InstDB::_inst_name_index_table : x86::InstDB::_inst_name_index_table;
+      const char* str = arch == 6 ? a64::InstDB::_inst_name_string_table : x86::InstDB::_inst_name_string_table;
+      uint32_t count = arch == 6 ? uint32_t(a64::Inst::_kIdCount) : uint32_t(x86::Inst::_kIdCount);
+      size_t end = 0;
+      for (uint32_t i = 0; i < count; i++) {
+        uint32_t v = idx[i];
+        if (v & 0x80000000u) continue;
+        size_t pb = v & 0xFFFu, ps = (v >> 12) & 0xFu, sb = (v >> 16) & 0xFFFu, ss = (v >> 28) & 0x7u;
+        if (pb + ps > end) end = pb + ps;
+        if (sb == 0xFFFu) { size_t a = pb + ps; size_t e2 = a + 1 + uint8_t(str[a]); if (e2 > end) end = e2; }
+        else if (sb + ss > end) end = sb + ss;
+      }
+      std::string o = "DN " + std::to_string(count) + " ";
+      char w[16];
+      for (uint32_t i = 0; i < count; i++) { snprintf(w, sizeof(w), "%08x", idx[i]); o += w; }
+      o += " " + hex(str, end);
       puts(o.c_str());
     }
     else if (cmd == "N") {
@@ -270,8 +332,8 @@ int main() {
       printf("Y %s%s\n", e == Error::kOk ? "" : "<error>", sb.data());
     }
     else if (cmd == "Z") {
-      uint32_t ff; std::string inl, kind;
-      in >> ff >> inl >> kind;
+      uint32_t ff, pos; std::string inl, kind;
+      in >> ff >> inl >> pos >> kind;
       CodeHolder code; code.init(Environment(Arch::kX64));
       x86::Builder b(&code);
       static std::string keep;
@@ -299,6 +361,7 @@ int main() {
       BaseNode* node = b.last_node();
       if (e != Error::kOk || !node) { printf("Z <error %u>\n", unsigned(e)); continue; }
       if (inl != "-") { keep = inl; node->set_inline_comment(keep.c_str()); }
+      if (pos) node->set_position(NodePosition(pos));
       FormatOptions fo; fo.set_flags(FormatFlags(ff));
       String sb;
       e = Formatter::format_node(sb, fo, &b, node);
@@ -337,6 +400,98 @@ int main() {
       String sb;
       Error e = Formatter::format_operand(sb, FormatFlags(ff), &CS.cc, Arch::kX64, op);
       printf("U %s%s\n", e == Error::kOk ? "" : "<error>", sb.data());
+    }
+    else if (cmd == "K") {
+      uint32_t ff, nv; in >> ff >> nv;
+      bool okt = check_vtable(CS, in, nv);
+      uint32_t id, opts; std::string mnem; in >> id >> mnem >> opts;
+      Operand_ ex; read_op(in, ex);
+      uint32_t n; in >> n; Operand_ ops[6]; for (auto& o : ops) o = Operand();
+      bool bad = !okt || n > 6;
+      for (uint32_t i = 0; i < n && !bad; i++) if (!read_op(in, ops[i])) bad = true;
+      if (bad) { printf("K <bad-command>\n"); continue; }
+      BaseInst inst(id, InstOptions(opts));
+      if (ex.is_reg()) inst = BaseInst(id, InstOptions(opts), ex.as<Reg>());
+      String sb;
+      Error e = Formatter::format_instruction(sb, FormatFlags(ff), &CS.cc, Arch::kX64, inst, Span<const Operand_>(ops, 6));
+      printf("K %s%s\n", e == Error::kOk ? "" : "<error>", sb.data());
+    }
+    else if (cmd == "J") {
+      uint32_t ff, nv; in >> ff >> nv;
+      bool okt = check_vtable(CS, in, nv);
+      Operand_ o0, o1;
+      if (!okt || !read_op(in, o0) || !read_op(in, o1)) { printf("J <bad-command>\n"); continue; }
+      FuncRetNode* node = nullptr;
+      Error e = CS.cc.new_func_ret_node(Out<FuncRetNode*>(node), o0, o1);
+      if (e != Error::kOk || !node) { printf("J <error %u>\n", unsigned(e)); continue; }
+      FormatOptions fo; fo.set_flags(FormatFlags(ff));
+      String sb;
+      e = Formatter::format_node(sb, fo, &CS.cc, node);
+      printf("J %s%s\n", e == Error::kOk ? "" : "<error>", sb.data());
+    }
+    else if (cmd == "W6") {
+      uint32_t ff, optype, vidx, vtype, et; int64_t ei; std::string name;
+      in >> ff >> optype >> vidx >> vtype >> name >> et >> ei;
+      if (!CS6.live) CS6.start();
+      uint32_t id = Operand::virt_index_to_virt_id(vidx);
+      if (CS6.cc.is_virt_id_valid(id)) {
+        VirtReg* vr = CS6.cc.virt_reg_by_id(id);
+        std::string real = vr->name_size() ? std::string(vr->name(), vr->name_size()) : std::string("-");
+        if (uint32_t(vr->reg_type()) != vtype || real != name) { printf("W6 <table-mismatch %u %s>\n", unsigned(vr->reg_type()), real.c_str()); continue; }
+      }
+      else if (name != "!") { printf("W6 <table-mismatch invalid>\n"); continue; }
+      a64::Vec v(OperandSignature{Reg::signature_of(RegType(optype)).bits()}, id);
+      v.set_element_type(a64::VecElementType(et));
+      if (ei >= 0) v.set_element_index(uint32_t(ei));
+      String sb;
+      Error e = Formatter::format_operand(sb, FormatFlags(ff), &CS6.cc, Arch::kAArch64, v);
+      printf("W6 %s%s\n", e == Error::kOk ? "" : "<error>", sb.data());
+    }
+    else if (cmd == "Q" || cmd == "QI") {
+      static const TypeId tys[] = { TypeId::kVoid, TypeId::kInt32, TypeId::kUInt32, TypeId::kInt64, TypeId::kUInt64, TypeId::kFloat32, TypeId::kFloat64 };
+      uint32_t ff; in >> ff;
+      CodeHolder code; code.init(Environment(Arch::kX64));
+      x86::Compiler cc(&code);
+      FormatOptions fo; fo.set_flags(FormatFlags(ff));
+      String sb;
+      if (cmd == "Q") {
+        uint32_t ret, nargs; in >> ret >> nargs;
+        FuncSignature sig(CallConvId::kX64SystemV);
+        sig.set_ret(tys[ret % 7]);
+        std::vector<std::string> binds;
+        std::vector<uint32_t> at;
+        for (uint32_t i = 0; i < nargs; i++) { uint32_t ty; std::string b; in >> ty >> b; sig.add_arg(tys[ty % 7]); binds.push_back(b); at.push_back(ty % 7); }
+        FuncNode* fn = cc.add_func(sig);
+        if (!fn) { printf("Q <error>\n"); continue; }
+        for (uint32_t i = 0; i < nargs; i++) {
+          if (binds[i] == "-") continue;
+          std::string nm = "a" + std::to_string(i);
+          Reg r;
+          if (at[i] >= 5) r = binds[i] == "u" ? cc.new_xmm() : cc.new_xmm(nm.c_str());
+          else if (at[i] >= 3) r = binds[i] == "u" ? cc.new_gp64() : cc.new_gp64(nm.c_str());
+          else r = binds[i] == "u" ? cc.new_gp32() : cc.new_gp32(nm.c_str());
+          fn->set_arg(i, r);
+        }
+        Error e = Formatter::format_node(sb, fo, &cc, fn);
+        printf("Q %s%s\n", e == Error::kOk ? "" : "<error>", sb.data());
+      }
+      else {
+        FuncNode* fn = cc.add_func(FuncSignature::build<void>(CallConvId::kX64SystemV));
+        x86::Gp v0 = cc.new_gp64(); x86::Gp v1 = cc.new_gp64("fnptr");
+        Operand_ tgt; if (!fn || !read_op(in, tgt)) { printf("QI <bad-command>\n"); continue; }
+        InvokeNode* inv = nullptr;
+        Error e = cc.invoke_(Out<InvokeNode*>(inv), tgt, FuncSignature::build<void>(CallConvId::kX64SystemV));
+        if (e != Error::kOk || !inv) { printf("QI <error %u>\n", unsigned(e)); continue; }
+        e = Formatter::format_node(sb, fo, &cc, inv);
+        printf("QI %s%s\n", e == Error::kOk ? "" : "<error>", sb.data());
+      }
+    }
+    else if (cmd == "RL") {
+      uint32_t arch, rt, mask; in >> arch >> rt >> mask;
+      BaseRegList rl(OperandSignature::from_op_type(OperandType::kRegList) | OperandSignature::from_reg_type(RegType(rt)), RegMask(mask));
+      String sb;
+      Error e = Formatter::format_operand(sb, FormatFlags::kNone, nullptr, Arch(arch), rl);
+      printf("RL %s%s\n", e == Error::kOk ? "" : "<error>", sb.data());
     }
     else if (cmd == "B") {
       uint32_t id; in >> id;
